@@ -19,7 +19,10 @@ RULE = ("cases = write scripts (write of any of the 12 integer types / &str / St
         "(2) fill level steered to every value in BUF-45..BUF (pre-fill string), then each of ~40 interesting writes (39-digit "
         "integers, sign + digits, strings of 0,1,2,38..46 bytes, exactly/one less/one more than the room left), (3) strings of "
         "BUF-1, BUF, BUF+1, 2BUF, 2BUF+1, 3BUF+7 bytes at fill levels 0,1,39,BUF-40,BUF-1,BUF; (4) random scripts of nested values; "
-        "(5) round-trip scripts read back through the real Reader under chunked/interrupted delivery. Compared: sink contents "
+        "(5) round-trip scripts read back through the real Reader under chunked/interrupted delivery; (7) `r` lines: the same kind of "
+        "script written by the real Writer and read back by the real Reader (leaf by leaf, or char / tuple reads of arity 2..8 / read_vec), "
+        "the values read are printed and compared with the Reader MODEL run on the Writer MODEL's sink bytes under the same delivery "
+        "schedule (drv_writer, IoRT.readBack). Compared: sink contents "
         "(length + FNV-1a hash; hex when short) after every flush and after drop, the harness's own format!-oracle, values read "
         "back; the number of write_all calls only as a raw (non-property) observation. non-trivial = distinct in-domain case whose "
         "final sink content is non-empty")
@@ -39,8 +42,9 @@ MANIFEST = {
              "backward digit loop in a BASE_10_LEN buffer never underflows and equals Nat.toDigits 10 for every value of every width "
              "(signed MIN included); tokenising and parsing the produced text returns the values; and (bridge to the Reader model of C08) "
              "the sink bytes of the dropped writer, delivered to the Reader model under any chunking / Interrupted placement and any reader "
-             "buffer size >= 1, are read back by read::<T>() per written integer / ASCII word (then is_eof() is true), and outln! lines by "
-             "read_line()/read_lines()."),
+             "buffer size >= 1, are read back by read::<T>() per written integer / ASCII word (then is_eof() is true), by every grouping of the "
+             "leaves into tuple reads, read_vec and char reads, write_char characters by read::<char>(), and outln! lines by "
+             "read_line()/read_lines(); the composed computation is what drv_writer executes for `r` case lines (readback_driver)."),
     "note": ("Trusted: Lean kernel, axioms propext/Classical.choice/Quot.sound, the hand-written model (checked against the code on "
              "generated scripts in a release and a debug build), std's write_all, harness and driver plumbing, FNV comparison of long outputs."),
     "technique": "Lean 4 proof of a hand-written model + differential correspondence check against the Rust crate in two build profiles",
